@@ -560,28 +560,98 @@ def _degenerate_axes(run, ci, init, K):
                 run.undecided('C07-R7', '%s.%s' % (ci.name, fld), 'branch form not recognised: ' + norm(v)[:60])
 
 
+def _is_interp1(e):
+    return isinstance(e, ast.Call) and (dotted(e.func) or '').split('.')[-1] == 'Interpolator1DArray' and len(e.args) >= 2
+
+
+def _one_point_branches(fn):
+    """(test, full-grid call, single-point value, full-grid branch taken when the test is true, line) for both spellings of the choice:
+    the conditional expression and the if/else statement assigning the same target in both arms."""
+    for e in ast.walk(fn):
+        if isinstance(e, ast.IfExp):
+            if _is_interp1(e.body):
+                yield e.test, e.body, e.orelse, True, e.lineno
+            elif _is_interp1(e.orelse):
+                yield e.test, e.orelse, e.body, False, e.lineno
+        elif isinstance(e, ast.If) and e.orelse:
+            for full, other, pos in ((e.body, e.orelse, True), (e.orelse, e.body, False)):
+                for st in full:
+                    if isinstance(st, ast.Assign) and len(st.targets) == 1 and _is_interp1(st.value):
+                        for st2 in other:
+                            if isinstance(st2, ast.Assign) and len(st2.targets) == 1 and norm(st2.targets[0]) == norm(st.targets[0]):
+                                yield e.test, st.value, st2.value, pos, st.lineno
+
+
+def _more_than_one(test, names):
+    """'the axis has more than one point' spelled as a comparison of len(x) / x.size / x.shape[0] with a constant, x one of `names`:
+    True / False (its negation) / 'wrong' (a different threshold) / None (not recognised)."""
+    if isinstance(test, ast.UnaryOp) and isinstance(test.op, ast.Not):
+        r = _more_than_one(test.operand, names)
+        return (not r) if isinstance(r, bool) else r
+    if not (isinstance(test, ast.Compare) and len(test.ops) == 1):
+        return None
+    l, op, r = test.left, test.ops[0], test.comparators[0]
+    flip = {ast.Gt: ast.Lt, ast.Lt: ast.Gt, ast.GtE: ast.LtE, ast.LtE: ast.GtE, ast.Eq: ast.Eq, ast.NotEq: ast.NotEq}
+    if isinstance(l, ast.Constant):
+        l, r, op = r, l, flip.get(type(op), type(None))()
+    if not (isinstance(r, ast.Constant) and isinstance(r.value, int)):
+        return None
+    ln = norm(l)
+    if not any(ln in ('len(%s)' % x, '%s.size' % x, '%s.shape[0]' % x) for x in names):
+        return None
+    k = r.value
+    table = {(ast.Gt, 1): True, (ast.GtE, 2): True, (ast.NotEq, 1): True, (ast.Eq, 1): False, (ast.Lt, 2): False, (ast.LtE, 1): False}
+    got = table.get((type(op), k))
+    if got is None and isinstance(op, (ast.Gt, ast.GtE, ast.Lt, ast.LtE, ast.Eq, ast.NotEq)):
+        return 'wrong'
+    return got
+
+
 def _degenerate_1d(run, prog):
-    """R7 (1D): 'Interpolator1DArray(x, f, ..) if len(f) > 1 else Constant1D(f[0])' -- the constant is the single table value."""
+    """R7 (1D): 'Interpolator1DArray(x, f, ..) if len(f) > 1 else Constant1D(f[0])' -- on a single-point axis the component is the
+    constant function whose value is the single stored table value.  Decided on the value of each arm (locals resolved), for the
+    conditional-expression and the statement spelling, either orientation of the test."""
     run.describe('C07-R7', 'single-point axes: the degenerate branches of an interpolant agree with the full-grid branch (axis, argument position, table slice, length test)')
-    n = 0
+    from ..inline import resolver
     for mi in prog.modules.values():
         if not mi.relpath.startswith('cherab/openadas/rates/') or mi.name.endswith('#pxd'):
             continue
-        for e in ast.walk(mi.tree):
-            if isinstance(e, ast.IfExp) and isinstance(e.body, ast.Call) and dotted(e.body.func) == 'Interpolator1DArray' and len(e.body.args) >= 2:
-                n += 1
+        for fn in [n for n in ast.walk(mi.tree) if isinstance(n, (ast.FunctionDef, ast.AsyncFunctionDef))]:
+            for test, full, single, pos, line in _one_point_branches(fn):
                 run.subject('C07-R7')
-                tab = norm(e.body.args[1])
-                axis = _inner(e.body.args[0])[0]
-                t = norm(e.test)
-                if not (isinstance(e.orelse, ast.Call) and dotted(e.orelse.func) == 'Constant1D' and len(e.orelse.args) == 1):
-                    run.undecided('C07-R7', mi.relpath, 'else branch not recognised: ' + norm(e.orelse)[:50])
-                elif norm(e.orelse.args[0]) != tab + '[0]' or t not in ('len(%s) > 1' % tab, 'len(%s) > 1' % axis):
-                    run.fail('C07-R7', '%s|degenerate-1d:%s' % (mi.name, tab), mi.relpath, e.lineno,
-                             'single-point branch is %s under the test %s; expected Constant1D(%s[0]) when the axis has one point'
-                             % (norm(e.orelse), t, tab))
+                tab = norm(full.args[1])
+                axis = _inner(full.args[0])[0]
+                res = resolver(fn, stop=(tab, axis))
+                key = '%s|degenerate-1d:%s' % (mi.name, tab)
+                what = '%s 1D %s' % (mi.relpath.split('/')[-1], tab)
+                m = _more_than_one(test, (tab, axis))
+                if m is None:
+                    m = _more_than_one(res(test), (tab, axis))
+                if m == 'wrong' or (isinstance(m, bool) and m != pos):
+                    run.fail('C07-R7', key, mi.relpath, line,
+                             'the full-grid interpolant over %s is chosen under %s%s: the constant branch must be taken exactly when the axis has one point'
+                             % (tab, '' if pos else 'not ', norm(test)))
+                    continue
+                if m is None:
+                    run.undecided('C07-R7', what, 'length test not recognised: ' + norm(test)[:50])
+                    continue
+                sv = single if not isinstance(single, ast.Name) else res(single)
+                if not (isinstance(sv, ast.Call) and (dotted(sv.func) or '').split('.')[-1] == 'Constant1D' and len(sv.args) == 1):
+                    run.undecided('C07-R7', what, 'single-point branch not recognised: ' + norm(sv)[:50])
+                    continue
+                arg = sv.args[0]
+                if isinstance(arg, ast.Name):
+                    arg = res(arg)
+                while isinstance(arg, ast.Call) and dotted(arg.func) in ('float', 'np.float64') and len(arg.args) == 1:
+                    arg = arg.args[0]
+                if isinstance(arg, ast.Subscript) and norm(arg.value) == tab and norm(arg.slice) in ('0', '-1'):
+                    run.ok('C07-R7', what, norm(test) + ' / ' + norm(sv)[:50], sample=False)
+                elif tab not in {norm(x) for x in ast.walk(arg) if isinstance(x, (ast.Name, ast.Attribute, ast.Subscript))}:
+                    run.fail('C07-R7', key, mi.relpath, line,
+                             'single-point branch is %s, which does not depend on the table %s; expected the constant %s[0] when the axis has one point'
+                             % (norm(sv), tab, tab))
                 else:
-                    run.ok('C07-R7', '%s 1D %s' % (mi.relpath.split('/')[-1], tab), norm(e)[:70], sample=False)
+                    run.undecided('C07-R7', what, 'single-point value not recognised: ' + norm(arg)[:50])
     run.floor('C07-R7', 9)
 
 
@@ -751,6 +821,18 @@ def _units(run, prog, ci, init, ev, ldefs, K):
             continue
         run.subject('C07-R6')
         got = []
+        own = _own_log10(ci.mod)
+        if own is not None and any(isinstance(a, ast.Call) and dotted(a.func) == 'log10' for a in c.args):
+            # the grid was built with numpy's log10; the evaluation coordinate must be the same function of the argument, else the
+            # coordinate of an edge grid point can fall outside the interpolation range (and raise when extrapolation is off)
+            if own[0] == 'differs':
+                run.fail('C07-R6', K + 'evaluate|own-log10', path, own[1].lineno,
+                         "%s.evaluate: log10 is the module's own function (%s), not the log10 the grids were built with: the coordinate of a "
+                         "stored grid point is not reproduced exactly" % (ci.name, own[2]))
+                continue
+            if own[0] == 'unknown':
+                run.undecided('C07-R6', '%s.%s axes' % (ci.name, fld), "module-level 'log10' is not the library function: " + own[2])
+                continue
         for a in c.args:
             logged = isinstance(a, ast.Call) and dotted(a.func) in ('log10',)
             inner = a.args[0] if logged else a
@@ -786,14 +868,40 @@ def _units(run, prog, ci, init, ev, ldefs, K):
                      '%s stores log10 of the table but evaluate() does not return 10 ** interpolant' % ci.name)
 
 
+def _own_log10(mi):
+    """None when 'log10' in the module is the library function (cimported / imported, or a module-level wrapper returning exactly the
+    library log10 of its argument); ('differs', def, text) when the module defines it as another expression; ('unknown', def, text)."""
+    for st in mi.tree.body:
+        if isinstance(st, ast.FunctionDef) and st.name == 'log10':
+            rets = [r for r in ast.walk(st) if isinstance(r, ast.Return) and r.value is not None]
+            ps = [a.arg for a in st.args.args]
+            if len(rets) == 1 and len(st.body) <= 2 and len(ps) == 1:
+                v = rets[0].value
+                if isinstance(v, ast.Call) and dotted(v.func) in ('np.log10', 'numpy.log10', 'math.log10', 'libc.math.log10', 'c_log10') \
+                        and len(v.args) == 1 and norm(v.args[0]) == ps[0]:
+                    return None
+                calls = {dotted(c.func) for c in ast.walk(v) if isinstance(c, ast.Call)}
+                if calls and calls <= {'log', 'log2', 'log1p', 'np.log', 'math.log', 'np.log2', 'math.log2'}:
+                    return ('differs', st, norm(v)[:60])
+            return ('unknown', st, 'def log10 at line %d' % st.lineno)
+        if isinstance(st, ast.Assign) and any(isinstance(t, ast.Name) and t.id == 'log10' for t in st.targets):
+            if dotted(st.value) in ('np.log10', 'numpy.log10', 'math.log10'):
+                return None
+            return ('unknown', st, norm(st.value)[:60])
+    return None
+
+
 _PEC = 'cherab/openadas/rates/pec.pyx'
 _BEAM = 'cherab/openadas/rates/beam.pyx'
 _CX = 'cherab/openadas/rates/cx.pyx'
 _AT = 'cherab/openadas/rates/atomic.pyx'
 MUTANTS = [
+    dict(name='radiated-power-own-log10', file='cherab/openadas/rates/radiated_power.pyx',
+         find="from libc.math cimport INFINITY, log10\n", replace="from libc.math cimport INFINITY, M_LOG10E, log\n\n\ncdef inline double log10(double x) noexcept nogil:\n    return M_LOG10E * log(x)\n", expect='C07-R6'),
     dict(name='single-density-branch-wrong-argument', file=_BEAM, find="IsoMapper2D(Arg2D('x'), Interpolator1DArray(np.log10(e), sen[:, 0]", replace="IsoMapper2D(Arg2D('y'), Interpolator1DArray(np.log10(e), sen[:, 0]", occurrence=0, of=3, expect='C07-R7'),
     dict(name='single-energy-branch-wrong-slice', file=_BEAM, find="Interpolator1DArray(np.log10(n), sen[0], ", replace="Interpolator1DArray(np.log10(n), sen[:, 0], ", occurrence=1, of=3, expect='C07-R7'),
-    dict(name='cx-single-point-constant-last-value', file='cherab/openadas/rates/cx.pyx', find="else Constant1D(qni[0])", replace="else Constant1D(qni[-1])", expect='C07-R7'),
+    dict(name='cx-single-point-constant-one', file='cherab/openadas/rates/cx.pyx', find="else Constant1D(qni[0])", replace="else Constant1D(1.0)", expect='C07-R7'),
+    dict(name='cx-single-point-threshold', file='cherab/openadas/rates/cx.pyx', find="if len(qzeff) > 1 else", replace="if len(qzeff) > 2 else", expect='C07-R7'),
     dict(name='cx-final-clamp-removed', file='cherab/openadas/rates/cx.pyx', find="        rate *= self._b.evaluate(b_field)\n        if rate <= 0:\n            return 0.0\n", replace="        rate *= self._b.evaluate(b_field)\n", expect='C07-R8'),
     dict(name='handler-type-changed', file=OA, find="            data = repository.get_ionisation_rate(ion, charge, repository_path=self._data_path)\n\n        except RuntimeError:",
          replace="            data = repository.get_ionisation_rate(ion, charge, repository_path=self._data_path)\n\n        except (FileNotFoundError, KeyError):", expect='C07-R1'),
@@ -822,6 +930,12 @@ MUTANTS = [
 ]
 MUTANTS = [m for m in MUTANTS if m['expect'] is not None]
 TWINS = [
+    dict(name='radiated-power-log10-wrapper', file='cherab/openadas/rates/radiated_power.pyx',
+         find="from libc.math cimport INFINITY, log10\n", replace="from libc.math cimport INFINITY\nfrom libc cimport math as cmath\n\n\ncdef inline double log10(double x) noexcept nogil:\n    return np.log10(x)\n"),
+    dict(name='cx-single-point-last-equals-first', file='cherab/openadas/rates/cx.pyx', find="else Constant1D(qni[0])", replace="else Constant1D(float(qni[-1]))"),
+    dict(name='cx-single-point-statement-form', file='cherab/openadas/rates/cx.pyx',
+         find="        self._b = Interpolator1DArray(bmag, qbmag, 'cubic', extrapolation_type, INFINITY) if len(qbmag) > 1 else Constant1D(qbmag[0])\n",
+         replace="        if qbmag.shape[0] == 1:\n            only = qbmag[0]\n            self._b = Constant1D(only)\n        else:\n            self._b = Interpolator1DArray(bmag, qbmag, 'cubic', extrapolation_type, INFINITY)\n"),
     dict(name='guard-disjuncts-reordered', file=_BEAM, find="        if energy <= 0 or density <= 0 or temperature <= 0:\n            return 0\n\n        # calculate rate and convert from log10 space to linear space\n        return 10 ** (self._npl_eb.evaluate(log10(energy), log10(density)) + self._tp.evaluate(log10(temperature)))\n\n\ncdef class NullBeamStoppingRate",
          replace="        if temperature <= 0 or energy <= 0 or density <= 0:\n            return 0.0\n\n        return 10 ** (self._npl_eb.evaluate(log10(energy), log10(density)) + self._tp.evaluate(log10(temperature)))\n\n\ncdef class NullBeamStoppingRate"),
     dict(name='guards-split', file=_AT, find="        if density <= 0 or temperature <= 0:\n            return 0\n\n        # calculate rate and convert from log10 space to linear space\n        return 10 ** self._rate.evaluate(log10(density), log10(temperature))\n\n\ncdef class NullIonisationRate",
